@@ -1,5 +1,5 @@
 From Coq Require Import Extraction ExtrOcamlBasic ExtrOcamlString NArith.
-From Oras Require Import Model.CopyImpl Model.CopyImplDst.
+From Oras Require Import Model.CopyImpl Model.CopyImplDst Model.CopyImplSem.
 Extraction Language OCaml.
 (* N.succ only so that the types positive / n used by ml/common.ml exist *)
-Extraction "xcopyimpl.ml" N.succ step init result is_final holders inflight enabled is_done run progress_label dstep dinit dclosedb drun.
+Extraction "xcopyimpl.ml" N.succ step init result is_final holders inflight enabled is_done run progress_label dstep dinit dclosedb drun sstep ssize_init sfree.
